@@ -22,7 +22,7 @@ from mc import core, srv
 
 LEVEL = "fault_enumeration"
 SM = "smSrv"
-EQS = ["S", "f", "k", "g"]
+EQS = ["S", "f", "k", "g", "acc"]      # acc: a pure accumulator, it forgets nothing of the history
 STEP_KINDS = ["nobody", "empty", "v1", "v2p"]
 TRUNC = ["empty", "one-byte", "in-header", "in-state", "last-byte-missing", "complete"]
 
@@ -305,6 +305,9 @@ def jobs(tier):
     # a long stretch of steps without settings before the crash (size ladder)
     for (n, k) in ([(120, 119)] if tier == "quick" else [(120, 119), (420, 400), (420, 421)]):
         out.append((0, 1, ["v1"] + ["nobody"] * n, False, False, k, None, False))
+        if n > 200:
+            # (the same with settings changing twice in the early part of the history)
+            out.append((0, 1, ["v1"] + ["nobody"] * 40 + ["v2p"] + ["nobody"] * 50 + ["v1"] + ["nobody"] * (n - 92), False, False, k, None, False))
     # step times whose text order differs from their numeric order: negative times, more than ten steps
     for (st, dt, n) in ((-2, 1, 3), (-1, 0.5, 4), (0, 1, 12)):
         for kinds in (["v1"] + ["nobody"] * (n - 2) + ["v2p"], ["nobody", "v1"] + ["empty"] * (n - 2)):
